@@ -4,6 +4,7 @@ import Sentinel.Lemmas.PipelineCouple
 import Sentinel.Lemmas.PipelineFlowHist
 import Sentinel.Lemmas.PipelineHotHist
 import Sentinel.Lemmas.PipelineSysHist
+import Sentinel.Lemmas.PipelineIdle
 import Sentinel.Props.C02
 import Sentinel.Props.C06
 import Sentinel.Props.C01
@@ -699,6 +700,230 @@ theorem sys_blocked_iff_integrated {R : Type} [LinearOrder R] (A : System.Arith 
     simp
   · simp only [verdict, Option.isSome_map, hi, true_and]
     exact Sentinel.C07.blocked_iff_exists_violated A s.sysRules s.sysRules (List.Perm.refl _) (sysView s)
+
+end Sentinel.INT
+
+/-! ## 2c. more module theorems on the integrated chain (each for every state / every history of the integrated model) -/
+
+namespace Sentinel.INT
+open Sentinel.Pipe
+
+variable {R : Type} [LT R] [∀ a b : R, Decidable (a < b)]
+
+theorem passedHist_append (A : System.Arith R) (s : St R) (os1 os2 : List (Pipe.Op R)) :
+    passedHist A s (os1 ++ os2) = passedHist A s os1 ++ passedHist A (run A s os1).1 os2 := by
+  induction os1 generalizing s with
+  | nil => rfl
+  | cons o os ih => simp only [List.cons_append, passedHist, run, ih, List.append_assoc]
+
+theorem run_append (A : System.Arith R) (s : St R) (os1 os2 : List (Pipe.Op R)) :
+    (run A s (os1 ++ os2)).1 = (run A (run A s os1).1 os2).1 := by
+  induction os1 generalizing s with
+  | nil => rfl
+  | cons o os ih => simp only [List.cons_append, run, ih]
+
+/-! ### (a) flow: admit ⇔ room, when every earlier slot passes; a blocked request costs no flow quota -/
+
+/-- **C02 `admit ⇔ windowSum + b ≤ T` on the integrated chain.**  Flow rules loaded once, any integrated history, any request
+    that the (only) earlier slot — system — lets through: `api.Entry` answers a **flow block** iff some flow rule of the
+    resource has no room for the batch in its aligned window of tokens that passed all slots; otherwise the request goes
+    on to the isolation slot (and the answer is whatever the first of isolation / hotspot / breaker says, or `pass`). -/
+theorem flow_block_iff_integrated (A : System.Arith R) (s0 : St R) (rules : List FlowReject.Rule)
+    (os : List (Pipe.Op R)) (h0 : s0.flow = FlowReject.load rules s0.now) (hpos : 0 < s0.now) (hst : s0.started = true)
+    (hno : ∀ rs, Pipe.Op.loadFlow rs ∉ os) (q : Req) (hsys : verdict A (run A s0 os).1 q .sys = none) :
+    (∃ i, (entry A (run A s0 os).1 q).2 = some (Blk.flow i)) ↔
+      ¬ ∀ c ∈ FlowReject.compile rules, c.rule.res = q.res →
+        c.rule.thr.exceeds (FlowReject.windowTokens (passedHist A s0 os) c.feed c.L c.Iv (run A s0 os).1.now + q.batch) = false := by
+  rw [← admit_iff_integrated A s0 rules os h0 hpos hst hno q]
+  constructor
+  · rintro ⟨i, hi⟩
+    have := (decision_is_first_block A (run A s0 os).1 q).2.1 _ hi
+    simp only [Blk.slot] at this
+    rw [this.1]; simp
+  · intro hne
+    cases hv : verdict A (run A s0 os).1 q .flow with
+    | none => exact absurd hv hne
+    | some b =>
+      have hslot := verdict_slot A _ q _ _ hv
+      cases b with
+      | flow i =>
+        refine ⟨i, ?_⟩
+        rw [entry_snd]
+        simp only [decision, firstBlock, hsys, hv]
+      | sys => cases hslot
+      | iso a b => cases hslot
+      | hot => cases hslot
+      | cb k => cases hslot
+
+/-- **a blocked request costs no flow quota — across modules.**  Whatever slot blocks a request — the *earlier* system slot
+    (the flow slot is never reached), the flow slot itself, or a *later* slot (isolation, hotspot, breaker: the flow check
+    had passed, yet `stat.Slot` and the standalone slot are told "blocked") — and also a malformed op: the history of tokens
+    that the flow windows count is unchanged by it, so (`flow_window_counts_only_fully_passed`) every later flow verdict is
+    computed as if the request had never come.  Only a request that passes **all** slots is appended. -/
+theorem blocked_costs_no_flow_quota (A : System.Arith R) (s0 : St R) (os : List (Pipe.Op R)) (q : Req) :
+    passedHist A s0 (os ++ [.entry q]) =
+      if (step A (run A s0 os).1 (.entry q)).2 = Out.dec none
+      then passedHist A s0 os ++ [flowArr (run A s0 os).1 q] else passedHist A s0 os := by
+  rw [passedHist_append]
+  simp only [passedHist, List.append_nil]
+  cases hout : (step A (run A s0 os).1 (.entry q)).2 with
+  | dec d =>
+    cases d with
+    | none => simp [flowPassed]
+    | some b => simp [flowPassed]
+  | _ => simp [flowPassed]
+
+/-- … spelled out for the next verdicts: after a blocked request and any further history, the flow slot decides over an
+    admitted history that contains no trace of it -/
+theorem blocked_request_invisible_to_flow (A : System.Arith R) (s0 : St R) (rules : List FlowReject.Rule)
+    (os os2 : List (Pipe.Op R)) (q : Req)
+    (h0 : s0.flow = FlowReject.load rules s0.now) (hpos : 0 < s0.now) (hst : s0.started = true)
+    (hno : ∀ rs, Pipe.Op.loadFlow rs ∉ os ++ [.entry q] ++ os2)
+    (hblk : (step A (run A s0 os).1 (.entry q)).2 ≠ Out.dec none) (q' : Req) :
+    verdict A (run A s0 (os ++ [.entry q] ++ os2)).1 q' .flow =
+      (FlowReject.refCheck FlowReject.RuleInfo.feed (FlowReject.compile rules)
+        (passedHist A s0 os ++ passedHist A (run A s0 (os ++ [.entry q])).1 os2) q'.res
+        (run A s0 (os ++ [.entry q] ++ os2)).1.now q'.batch).map Blk.flow := by
+  rw [flow_window_counts_only_fully_passed A s0 rules _ h0 hpos hst hno q', passedHist_append,
+    blocked_costs_no_flow_quota, if_neg hblk]
+
+/-! ### (b) hotspot: blocks by later slots leave the cells where they were -/
+
+/-- **C06 `cell = live` under blocks by later slots.**  Hotspot rules loaded before the traffic, any integrated history, then
+    a request that passes the hotspot check and is blocked by a circuit breaker (the only later slot): the live entries are
+    the same as before and every cell (of a controller that has not evicted) still equals the number of live entries with
+    the value — `ConcurrencyStatSlot` counts passed entries only; the check's `AddIfAbsent` creates cells but never moves one. -/
+theorem later_block_leaves_cells (A : System.Arith R) (s0 : St R) (rules : List HotConc.Rule) (os : List (Pipe.Op R))
+    (h0 : s0.hot = HotConc.init rules) (hno : ∀ rs, Pipe.Op.loadHot rs ∉ os) (q : Req) (k : Nat)
+    (hu : usedId (run A s0 os).1 q.id = false) (hst : (run A s0 os).1.started = true)
+    (hblk : (entry A (run A s0 os).1 q).2 = some (Blk.cb k)) :
+    (entry A (run A s0 os).1 q).1.hot.live = (run A s0 os).1.hot.live ∧
+    ∀ t ∈ (entry A (run A s0 os).1 q).1.hot.tcs, t.ev = false → ∀ v, v ≠ HotConc.Val.nil →
+      HotConc.cellOf t.cache v = (HotConc.liveOf t.rule v (run A s0 os).1.hot.live : Int) := by
+  have hlive : (entry A (run A s0 os).1 q).1.hot.live = (run A s0 os).1.hot.live := by
+    have := ((decision_is_first_block A (run A s0 os).1 q).2.2.2 _ hblk).2.2.2.2.2.2.2.1 (by simp [Blk.slot, Slot.pos])
+    rw [this]; rfl
+  refine ⟨hlive, ?_⟩
+  have hstep : (run A s0 (os ++ [.entry q])).1 = (entry A (run A s0 os).1 q).1 := by
+    rw [run_append]
+    simp [run, step, hst, hu]
+  have hno' : ∀ rs, Pipe.Op.loadHot rs ∉ os ++ [.entry q] := by
+    intro rs hm
+    rcases List.mem_append.mp hm with h | h
+    · exact hno rs h
+    · simp at h
+  have := cell_eq_live_integrated A s0 rules (os ++ [.entry q]) h0 hno'
+  rw [hstep, hlive] at this
+  exact this
+
+/-- a request blocked by an **earlier** slot (system, flow, isolation) does not reach the hotspot slot: no cell is even
+    created, the whole hotspot component is untouched (from `decision_is_first_block`) -/
+theorem earlier_block_leaves_hot_untouched (A : System.Arith R) (s : St R) (q : Req) (b : Blk)
+    (hblk : (entry A s q).2 = some b) (hearly : b.slot.pos < Slot.hot.pos) : (entry A s q).1.hot = s.hot :=
+  ((decision_is_first_block A s q).2.2.2 b hblk).1 hearly
+
+/-! ### (c) system: outbound traffic is never blocked by it; what it blocks reaches no later slot -/
+
+/-- **C07 `outbound_never_blocked` on the integrated chain**: whatever the system rules, readings and statistics, an outbound
+    request is never answered with a system block -/
+theorem outbound_never_sys_blocked (A : System.Arith R) (s : St R) (q : Req) (hout : q.inbound = false) :
+    (entry A s q).2 ≠ some Blk.sys := by
+  intro h
+  have := ((decision_is_first_block A s q).2.1 _ h).1
+  simp [Blk.slot, verdict, System.check, hout] at this
+
+/-- **a system-blocked request reaches no later slot**: flow controllers, isolation gauge and handles, hotspot cells,
+    breakers and listener log are exactly as before; nothing is admitted.  (The block is counted by `stat.Slot`.) -/
+theorem sys_block_reaches_no_later_slot (A : System.Arith R) (s : St R) (q : Req) (h : (entry A s q).2 = some Blk.sys) :
+    (entry A s q).1.flow.ctrls = s.flow.ctrls ∧ (entry A s q).1.iso = s.iso ∧ (entry A s q).1.hot = s.hot ∧
+    (entry A s q).1.cb = s.cb ∧ (entry A s q).1.evs = s.evs ∧ (entry A s q).1.reqs = s.reqs := by
+  obtain ⟨h1, h2, _, _, _, h6, h7, _, _, h10⟩ := (decision_is_first_block A s q).2.2.2 _ h
+  have hp1 : (Blk.sys).slot.pos < Slot.hot.pos := by simp [Blk.slot, Slot.pos]
+  have hp2 : (Blk.sys).slot.pos < Slot.cb.pos := by simp [Blk.slot, Slot.pos]
+  exact ⟨h6, h7, h1 hp1, (h2 hp2).1, (h2 hp2).2, h10⟩
+
+end Sentinel.INT
+
+/-! ## 3d. conservation: when every admitted entry has exited, every gauge the modules read is 0 -/
+
+namespace Sentinel.INT
+open Sentinel.Pipe
+
+variable {R : Type} [LT R] [∀ a b : R, Decidable (a < b)]
+
+/-- nothing is in flight on any node once `reqs` is empty: the ledger's live count is 0 (real accounts are all finished —
+    `reqs_are_live_contexts`; the node-creating ghosts of `flow.LoadRules` never account — `GhostStd`) -/
+theorem live_zero_when_idle (A : System.Arith R) (l0 c0 : R) (os : List (Pipe.Op R))
+    (hs : (run A (fresh l0 c0) os).1.started = true) (hidle : (run A (fresh l0 c0) os).1.reqs = []) (k : Entry.Key) :
+    Entry.live (run A (fresh l0 c0) os).1.eh k = 0 := by
+  have hinv : Inv (fresh l0 c0) := by intro h; simp [fresh] at h
+  have hl := inv_run A _ os hinv hs
+  have hsync := sync_run A _ os (sync_fresh l0 c0)
+  have hg : GhostStd (run A (fresh l0 c0) os).1 :=
+    ghostStd_run A _ os (sync_fresh l0 c0) (by intro g c hc; simp [fresh, Entry.init, Entry.findE] at hc)
+  have sim := Entry.sim_runR false _ _ hl.pos hl.mono
+  have hents : ∀ id, Entry.findE (run A (fresh l0 c0) os).1.ent.ents id =
+      (Entry.info (run A (fresh l0 c0) os).1.eh id).map Entry.ctxOf := by
+    intro id; rw [hl.ent]; exact sim.ents id
+  unfold Entry.live
+  rw [List.countP_eq_zero]
+  intro id hid
+  obtain ⟨i, hi⟩ := Option.isSome_iff_exists.mp ((Entry.mem_entryIds _ id).mp hid)
+  simp only [Entry.liveB, hi, Bool.and_eq_true, Bool.not_eq_true', not_and, Bool.not_eq_true]
+  intro hnd
+  have hc := hents id
+  rw [hi] at hc
+  rcases Nat.even_or_odd' id with ⟨g, rfl | rfl⟩
+  · have := hg g _ hc
+    simp only [Entry.ctxOf] at this
+    cases k <;> simp [Entry.touches, this]
+  · have hd := hsync.ctx.dead g (by rw [hidle]; intro q hq; cases hq) _ (by simpa [rid] using hc)
+    simp only [Entry.ctxOf] at hd
+    rw [hd] at hnd
+    cases hnd
+
+/-- **gauge conservation on the integrated chain** (C01 `gauge_zero_when_idle` transferred, with the ghosts of `flow.LoadRules`
+    accounted for): after any integrated history at whose end every admitted entry has exited — whatever mixture of passes
+    and of blocks by any of the five slots, errors, late exits, rule loads happened — the concurrency gauge of **every
+    resource node and of the inbound node** is 0, and so is the gauge the isolation slot reads. -/
+theorem gauges_zero_when_idle (A : System.Arith R) (l0 c0 : R) (os : List (Pipe.Op R))
+    (hs : (run A (fresh l0 c0) os).1.started = true) (hidle : (run A (fresh l0 c0) os).1.reqs = []) :
+    (∀ k g, Entry.obsConc (run A (fresh l0 c0) os).1.ent k = some g → g = 0) ∧
+    (∀ res, (run A (fresh l0 c0) os).1.iso.gauge res = 0) := by
+  have h1 : ∀ k g, Entry.obsConc (run A (fresh l0 c0) os).1.ent k = some g → g = 0 := by
+    intro k g hg
+    have := (gauge_is_live_integrated A l0 c0 os hs k g hg).1
+    rw [this, live_zero_when_idle A l0 c0 os hs hidle k]
+    rfl
+  refine ⟨h1, fun res => ?_⟩
+  rw [iso_gauge_coupled A l0 c0 os hs res]
+  cases hc : Entry.obsConc (run A (fresh l0 c0) os).1.ent (some res) with
+  | none => rfl
+  | some g => simp [h1 _ g hc]
+
+/-- the hotspot component's live entries are exactly the admitted-and-not-exited requests, after every history -/
+theorem hot_live_is_reqs (A : System.Arith R) (l0 c0 : R) (os : List (Pipe.Op R)) :
+    (run A (fresh l0 c0) os).1.hot.live = (run A (fresh l0 c0) os).1.reqs.map hotLiveOf :=
+  (hotLive_run A _ os ⟨rfl, by simp [fresh], fun q hq => by simp [fresh] at hq⟩).live
+
+/-- **the hotspot cells return to zero** (C06 `returns_to_zero` / `cell_eq_live` transferred): hotspot rules loaded at the start
+    of the case (`clock t`, `load hot rules`), then any integrated history without another hotspot load; once every admitted
+    entry has exited, every cell of every controller that has not evicted is 0 — whatever was blocked by whichever slot
+    in between (entries blocked before the hotspot slot never touch a cell, entries blocked by a breaker create cells but
+    do not count, admitted entries count +1 and −1). -/
+theorem hot_cells_zero_when_idle (A : System.Arith R) (l0 c0 : R) (t : Nat) (ht : 0 < t) (rules : List HotConc.Rule)
+    (os : List (Pipe.Op R)) (hno : ∀ rs, Pipe.Op.loadHot rs ∉ os)
+    (hidle : (run A (fresh l0 c0) ([.clock t, .loadHot rules] ++ os)).1.reqs = []) :
+    ∀ tc ∈ (run A (fresh l0 c0) ([.clock t, .loadHot rules] ++ os)).1.hot.tcs, tc.ev = false → ∀ v, v ≠ HotConc.Val.nil →
+      HotConc.cellOf tc.cache v = 0 := by
+  intro tc htc hev v hv
+  have hlive := hot_live_is_reqs A l0 c0 ([.clock t, .loadHot rules] ++ os)
+  rw [hidle] at hlive
+  rw [run_append] at htc hlive
+  have h0 := hot_start_reachable A l0 c0 t ht rules
+  have := cell_eq_live_integrated A _ rules os h0 hno tc htc hev v hv
+  rw [this, hlive]
+  rfl
 
 end Sentinel.INT
 
